@@ -72,6 +72,43 @@ def _idx_shape(e: ast.AST, k: str) -> Tuple[str, List[str]]:
     return shape, others
 
 
+def _reindex_rule(idx: Index, res: Result) -> None:
+    """REINDEX: Operator.arrayed_term(index, time) renders the operand at *index* - the summation index of the enclosing dot product -
+    whatever index the operand carried before (a clone made by clone_with_index carries the result index), and puts the previous
+    index back afterwards.  Decided on the flow graph: the last store to self.index before self.term(...) is the parameter itself."""
+    from ..cfg import Flow, build_cfg
+    fi = idx.func(OPS, "Operator.arrayed_term")
+    ps = params(fi.node)
+    if len(ps) < 2:
+        raise AnalysisError("Operator.arrayed_term has no index parameter")
+    ip = ps[1]
+    cfg = build_cfg(fi.node, fi.qual)
+
+    def transfer(node, fact, label):
+        if node.kind == "stmt" and label != "exc" and isinstance(node.ast, ast.Assign):
+            for t in node.ast.targets:
+                if dotted(t) == "self.index":
+                    return [src(node.ast.value)]
+        return [fact]
+    flow = Flow(cfg, ["<entry>"], transfer)
+    calls = [n for n in cfg.stmt_nodes() if n.ast is not None and any(isinstance(c, ast.Call) and call_name(c) == "term" and dotted(c.func.value) == "self"
+                                                                       for c in ast.walk(n.ast))]
+    if not calls:
+        raise AnalysisError("Operator.arrayed_term does not call self.term()")
+    for n in calls:
+        facts = flow.at[n.id]
+        ok = bool(facts) and all(f == ip for f in facts)
+        res.check("REINDEX", "arrayed_term renders the operand at the index it is given", ok, fi.loc(n.ast), fi.qual, norm_stmt(n.ast)[:80],
+                  "while the term is built self.index is %s, not the parameter %s: an operand that already carries an index (a clone made for the "
+                  "result index) keeps it, so a dot product over an arrayed expression sums the wrong members" % (sorted(facts), ip),
+                  key="REINDEX/Operator.arrayed_term/index-in-force")
+    saved = [n.targets[0].id for n in walk_no_nested(fi.node) if isinstance(n, ast.Assign) and isinstance(n.targets[0], ast.Name) and dotted(n.value) == "self.index"]
+    out = flow.at[cfg.exit]
+    ok = bool(saved) and bool(out) and all(f in saved for f in out)
+    res.check("REINDEX", "arrayed_term puts the previous index back", ok, fi.loc(), fi.qual, "self.index = <saved>",
+              "on leaving arrayed_term self.index is %s, not the saved previous index" % sorted(out), key="REINDEX/Operator.arrayed_term/restore")
+
+
 def check_c10(idx: Index, tier: str, res: Result) -> None:
     res.explanation = ("Static decision of the arrayed-equation generator: (a) hole-safety, time pass-through and operator identity "
                        "of every arrayed return path of + - * /, scalar multiply, dot and the aggregates; both operands of an "
@@ -89,6 +126,7 @@ def check_c10(idx: Index, tier: str, res: Result) -> None:
     guards = ctor_guards(idx)
     arr_renderers = [r for r in renderers if r.cls in ARRAY_CLASSES]
     res.floor("arrayed return paths", len(arr_renderers), 50)
+    _reindex_rule(idx, res)
     _r1_table(res, arr_renderers, ARRAY_CLASSES, inners, tier, "R1", "C10", guards)
     _r2(idx, res, arr_renderers, floor=60)
     operator_identity(res, arr_renderers, ARRAY_CLASSES)
